@@ -387,6 +387,7 @@ class C10Engine:
         self.real = real
         self.kinds = {h: d["kind"] for h, d in world.m.items()}
         self.note_groups: Dict[str, set] = {}
+        self.once_shared: set = set()
 
     def count(self, k: str, n: int = 1) -> None:
         self.counters[k] = self.counters.get(k, 0) + n
@@ -439,10 +440,22 @@ class C10Engine:
                     b.pop(f"{h}.note.{lang}", None)
         if a != b:
             bad = [k for k in b if a.get(k) != b[k]]
-            k0 = next((k for k in bad if not k.startswith(self.db + ".")), bad[0])
+            # the element-level rendering of a Note that is, or once was, the note of two elements is kept apart:
+            # Note.parent is a single pointer (known finding, see known_findings.json); every other difference
+            # takes precedence so that this one can never mask it
+            shared_note_keys = [k for k in bad if ".note." in k and k.split(".")[0] in self.once_shared]
+            other = [k for k in bad if k not in shared_note_keys]
+            pick = other or shared_note_keys
+            k0 = next((k for k in pick if not k.startswith(self.db + ".")), pick[0])
             kind = self.kinds[k0.split(".")[0].split("[")[0]]
             detail = {"after": ctx, "differs": bad[:8], "first": k0, "edited": a[k0], "fresh": b[k0]}
-            raise Violation(PROP, "stale-rendering", detail, f"stale:{kind}.{k0.rsplit('.', 1)[1]}")
+            if not other:
+                sig = f"stale:{kind}.note.{k0.rsplit('.', 1)[1]}:once-shared-note-object"
+            elif ".note." in k0:
+                sig = f"stale:{kind}.note.{k0.rsplit('.', 1)[1]}"
+            else:
+                sig = f"stale:{kind}.{k0.rsplit('.', 1)[1]}"
+            raise Violation(PROP, "stale-rendering", detail, sig)
 
     # ---- operations
     def veto(self, op: List[Any]) -> Optional[str]:
@@ -780,6 +793,7 @@ class C10Engine:
             grp.add(b)
             for x in grp:
                 self.note_groups[x] = grp
+                self.once_shared.add(x)
         elif k == "glitch":
             # a required attribute is missing for a moment, a database-level rendering is attempted (and
             # refused), the attribute is restored: the model is what it was
